@@ -1032,6 +1032,26 @@ func ruleCryptoKeySealing(c *report.Ctx) {
 	// value → the object it was produced from: X.Encrypt(..)#0 → X ; X.Marshal() → X
 	producer := func(v ssa.Value, method string) ssa.Value {
 		v = soleNonNil(v)
+		// carried in a field of a record the function fills itself (one store to that field in the function)
+		for i := 0; i < 3; i++ {
+			ld, ok := v.(*ssa.UnOp)
+			if !ok || ld.Op != token.MUL {
+				break
+			}
+			fa, ok := ld.X.(*ssa.FieldAddr)
+			if !ok || ld.Parent() == nil {
+				break
+			}
+			n := an.NamedOf(fa.X.Type())
+			if n == nil {
+				break
+			}
+			sts := fieldStores(ld.Parent(), n, an.FName(derefStructT(fa.X.Type()), fa.Field))
+			if len(sts) != 1 {
+				break
+			}
+			v = soleNonNil(sts[0].(*ssa.Store).Val)
+		}
 		if ex, ok := v.(*ssa.Extract); ok {
 			v = ex.Tuple
 		}
